@@ -200,10 +200,12 @@ class Ctl(Harness):
             add("feaslin", 3, 1)
             add("feaslin2", 5, 2)
             add("tgtlin", 4, 1, target=True)
-            add("boxnls", 3, 1, npt=2, cb="pos")
+            add("boxnls", 3, 1, npt=2, cb="pos", heavy=True)            # symbolic constraint values: 40k paths
+            add("boxnls", 3, 1, npt=2, cb="pos", con_const=0.5)        # same run with a constant constraint value
             add("nlub", 2, 1, cb="pos", kinds="all", npt=2)
             add("nleq", 2, 1, target=True, npt=2)
-            add("nl2", 2, 1, npt=2)
+            add("nl2", 2, 1, npt=2, heavy=True)
+            add("nl2", 3, 1, npt=2, con_const=0.5)
             add("feas", 3, 1, cb="pos", npt=2)
             add("dict", 2, 1, npt=2, cb="kw")
             add("dict2", 2, 1, npt=2, con_const=0.5)
@@ -263,6 +265,9 @@ class Ctl(Harness):
                 return d["cb"] != "none" or d["target"] or not P.get("fun", True)
             if prop == "C01":
                 return P.get("bounds") is not None
+            if d.get("heavy"):
+                # the expensive variants only where the symbolic constraint values matter
+                return prop in ("C20", "C03", "C02") if d["pb"] == "boxnls" else prop in ("C06", "C17", "C02")
             if d.get("repeat") or d.get("nested"):
                 return prop == "C11"
             if d.get("force"):
